@@ -83,6 +83,9 @@ def classify(outcomes, res):
         res.extra["repr_checks"] = res.extra.get("repr_checks", 0) + out["reprs"]
         for att in out["attention"]:
             for b in att["bad"]:
+                if core.interpreter_limit(b.get("raised"), att["par"]):
+                    res.extra["skipped_at_the_interpreters_recursion_limit"] = res.extra.get("skipped_at_the_interpreters_recursion_limit", 0) + 1
+                    continue
                 if "raised" in b or b.get("repr") or b.get("why") == "by_attr(missing attribute)" or "C09" in b.get("verdict", []):
                     res.violation({"property": "C09", "module": "render", "config": out["config"]["name"],
                                    "why": "RenderTree output differs from the definition: %s" % {k: v for k, v in b.items() if k not in ("rows", "text")},
